@@ -417,3 +417,147 @@ Proof.
   - split; [discriminate|]. intros [H R]. inversion H; subst. cbn [m_nodes m_outs] in R.
     apply valid_to_replace_iff in R. congruence.
 Qed.
+
+(* ------------------------------------------------------------------ several output nodes *)
+Lemma roots_are_length : forall s roots cand, roots_are s roots cand = true -> List.length roots = List.length cand.
+Proof.
+  induction roots as [| r rt IH]; intros [| c ct] H; simpl in *; try discriminate; auto.
+  apply andb_true_iff in H as [_ H]. f_equal; auto.
+Qed.
+
+Section Multi.
+Variable fl : flags.
+Variable g : hgraph.
+Variable p : gpat.
+Variable s : sigma.
+Hypothesis Hrep : repaired fl = true.
+Hypothesis Hor : or_free p = true.
+Hypothesis Htp : topo p = true.
+Hypothesis Hok : nodes_ok g (gp_nodes p) s = true.
+
+Lemma match_roots_complete : forall roots cand st,
+  roots_are s roots cand = true -> sub s st ->
+  exists st', match_roots fl g p roots cand st = Ok st' /\ sub s st' /\ below st' = below st /\
+    (forall r m, lookup_nb r st = Some m -> lookup_nb r st' = Some m) /\
+    (forall r, In r roots -> exists c, lookup_nb r st' = Some c).
+Proof.
+  induction roots as [| r rt IH]; intros [| c ct] st R S; simpl in R; try discriminate.
+  - exists st. simpl. split; [reflexivity|]. split; [exact S|]. split; [reflexivity|]. split; [auto|]. intros r [].
+  - apply andb_true_iff in R as [R1 R2].
+    assert (NO := node_ok_of g (gp_nodes p) s Hok _ _ R1). unfold node_ok in NO; cbn [fst snd] in NO.
+    destruct (nth_error (gp_nodes p) r) as [npr|] eqn:Tr; try discriminate.
+    assert (Lr : r < fuel_for p).
+    { unfold fuel_for. assert (r < List.length (gp_nodes p)) by (apply nth_error_Some; congruence). lia. }
+    destruct (match_node_complete fl g (gp_nodes p) s Hok Hor Htp (fuel_for p) r c st Lr S R1)
+      as (st1 & M & S1 & B1 & L1 & Mono1).
+    destruct (IH ct st1 R2 S1) as (st' & M' & S' & B' & Mono' & All').
+    exists st'.
+    change (match_roots fl g p (r :: rt) (c :: ct) st)
+      with (rbind (match_node fl g (gp_nodes p) (fuel_for p) r c st) (fun st1 => match_roots fl g p rt ct st1)).
+    rewrite M. cbn [rbind]. split; [exact M'|]. split; [exact S'|]. split; [congruence|]. split.
+    + intros q m Hq. apply Mono'. apply Mono1. exact Hq.
+    + intros q [E|I]; [subst q; exists c; apply Mono'; exact L1 | apply All'; exact I].
+Qed.
+
+Theorem try_candidate_complete : forall cand,
+  outs_reachable_multi p ->
+  roots_are s (output_nodes p) cand = true ->
+  exists m, try_candidate fl g p false cand = Ok m.
+Proof.
+  intros cand Hreach R.
+  assert (S0 : sub s init_stack). { repeat split; intros; discriminate. }
+  destruct (match_roots_complete _ _ _ R S0) as (st & M & S & B & _ & All).
+  assert (Hl := roots_are_length _ _ _ R).
+  destruct (match_roots_spec fl g p Hrep _ _ _ _ Hl M) as ((E & G & _) & _).
+  assert (G0 : good g (gp_nodes p) [] init_stack). { split; [intros q n A; discriminate | reflexivity]. }
+  destruct (G G0) as [Gb _]. simpl in B.
+  assert (Flat := sig_of_flat st B).
+  assert (RB : forall r q, In r (output_nodes p) -> reach (gp_nodes p) r q -> exists n, lookup_nb q st = Some n).
+  { intros r q Ir Rq. induction Rq as [| q np q' i Rq IH Tq Iq]; [apply All; auto|].
+    destruct IH as (n & Ln). destruct (Gb q n Ln) as [[]|NO].
+    unfold node_ok in NO; cbn [fst snd] in NO. rewrite Tq in NO.
+    destruct (nth_error (g_nodes g) n) as [h|]; try discriminate.
+    unfold nlocal in NO. apply andb_true_iff in NO as [NO _]. apply andb_true_iff in NO as [_ IL].
+    destruct (inputs_local_in _ _ _ _ _ IL Iq) as (a & V). simpl in V.
+    apply andb_true_iff in V as [_ V]. unfold out_of in V. destruct a as [x|]; try discriminate.
+    destruct (producer g x) as [[n' idx]|]; try discriminate. apply andb_true_iff in V as [_ V].
+    unfold node_is in V. unfold lookup_nb. cbn [sig_of s_n] in V.
+    destruct (assoc Nat.eqb q' (all_nb st)); try discriminate. eauto. }
+  assert (OV : forall outs, (forall pv, In pv outs -> In pv (gp_outs p)) ->
+                 exists bs, output_values (gp_nodes p) st outs = Some bs).
+  { induction outs as [| pv t IH]; intros Sub; simpl; eauto.
+    destruct (IH (fun pv' I => Sub pv' (or_intror I))) as (bs & Hbs). rewrite Hbs.
+    destruct (Hreach pv (Sub pv (or_introl eq_refl))) as (r & q & i & np & Ir & Epv & Rq & Tq & Li). subst pv.
+    destruct (RB _ _ Ir Rq) as (n & Ln). destruct (Gb q n Ln) as [[]|NO].
+    unfold node_ok in NO; cbn [fst snd] in NO. rewrite Tq in NO.
+    destruct (nth_error (g_nodes g) n) as [h|]; try discriminate.
+    unfold nlocal in NO. apply andb_true_iff in NO as [_ OL].
+    destruct (nth_error (np_outs np) i) as [name|] eqn:Nm; [| apply nth_error_None in Nm; lia].
+    destruct (outputs_local_nth _ _ _ _ _ _ _ OL Nm) as (o & _ & Vv). simpl in Vv.
+    assert (ON : out_name (gp_nodes p) q i = name). { unfold out_name. rewrite Tq. apply nth_error_nth; auto. }
+    cbn [output_value]. rewrite ON. rewrite Flat in Vv. destruct name as [x|]; simpl in Vv.
+    - unfold var_is in Vv; cbn [s_v] in Vv. destruct (assoc String.eqb x (pb (top st))); try discriminate. eauto.
+    - unfold key_is in Vv; cbn [s_k] in Vv. destruct (assoc vkey_eqb (KOut q i) (pvb (top st))); try discriminate.
+      simpl. eauto. }
+  destruct (OV (gp_outs p) (fun _ I => I)) as (bs & Hbs).
+  eexists. unfold try_candidate. rewrite M. unfold finish. rewrite B, Hbs. cbn [andb]. reflexivity.
+Qed.
+
+Lemma try_candidate_not_soft : forall rm cand st, try_candidate fl g p rm cand <> Soft st.
+Proof.
+  intros rm cand st. unfold try_candidate.
+  destruct (match_roots fl g p (output_nodes p) cand init_stack) as [st1| | |s1]; try discriminate.
+  - unfold finish. destruct (below st1); try discriminate.
+    destruct (output_values (gp_nodes p) st1 (gp_outs p)); try discriminate.
+    destruct (rm && negb (valid_to_replace g (rev (pnodes (top st1))) l)); discriminate.
+  - destruct (out_fail fl); try discriminate. destruct (below s1); discriminate.
+Qed.
+
+Lemma first_ok_complete : forall rm cands c m,
+  In c cands -> try_candidate fl g p rm c = Ok m ->
+  (forall c', In c' cands -> try_candidate fl g p rm c' <> Err) ->
+  exists m', first_ok fl g p rm cands = Ok m'.
+Proof.
+  induction cands as [| c0 t IH]; intros c m I T NE; [contradiction|]. simpl.
+  destruct (try_candidate fl g p rm c0) as [m0| | |s0] eqn:T0.
+  - eauto.
+  - destruct I as [E|I]; [subst; congruence|]. eapply IH; eauto. intros c' I'. apply NE; right; auto.
+  - exfalso. apply (NE c0); auto. left; auto.
+  - exfalso. eapply try_candidate_not_soft; eauto.
+Qed.
+
+(* completeness with several output nodes: when some tuple of candidates (first = the root) carries an instance,
+   a match is reported (for the first such tuple in candidate order), provided no earlier tuple makes the
+   matcher raise *)
+Theorem run_complete_orfree_multi : forall root cand,
+  outs_reachable_multi p ->
+  In cand (candidates p g root) ->
+  instanceb g p cand s = true ->
+  (forall c, In c (candidates p g root) -> try_candidate fl g p false c <> Err) ->
+  exists m, run fl p g root false = Ok m.
+Proof.
+  intros root cand Hreach Ic Hinst NE.
+  unfold instanceb in Hinst. apply andb_true_iff in Hinst as [R _].
+  destruct (try_candidate_complete cand Hreach R) as (m & T).
+  unfold run. unfold candidates in Ic, NE.
+  destruct (output_nodes p) as [| r [| r2 others]] eqn:On; [contradiction| |].
+  - destruct Ic as [E|[]]; subst cand. eauto.
+  - eapply first_ok_complete; eauto.
+Qed.
+
+End Multi.
+
+Theorem run_complete_orfree_multi_closed : forall fl g p s,
+  repaired fl = true -> or_free p = true -> topo p = true ->
+  forall root cand,
+  outs_reachable_multi p ->
+  In cand (candidates p g root) ->
+  instanceb g p cand s = true ->
+  (forall c, In c (candidates p g root) -> try_candidate fl g p false c <> Err) ->
+  exists m, run fl p g root false = Ok m.
+Proof.
+  intros fl g p s Hrep Hor Htp root cand Hre Ic Hi NE.
+  assert (Hok : nodes_ok g (gp_nodes p) s = true).
+  { unfold instanceb in Hi. apply andb_true_iff in Hi as [_ H]; exact H. }
+  exact (run_complete_orfree_multi fl g p s Hrep Hor Htp Hok root cand Hre Ic Hi NE).
+Qed.
